@@ -164,6 +164,19 @@ def run(tier):
                            "max_live": (160 << 20) if big else (24 << 20),
                            "rand_place": True, "os": rng.choice("bad"), "rand_refuse": rng.choice([0, 20, 100, 300]),
                            "classes": A.boundary_sizes(k) if big else classes, "aligns": A.ALIGNS, "src": "random"})
+    # unsatisfiable requests (legal layouts far beyond what any OS grants): null, nothing lost,
+    # the heap stays usable; logged sizes are clamped to 2^29 (>= Huge) for TLC's integers
+    for i, huge in enumerate([1 << 31, 1 << 40, (1 << 62) + 12345, (1 << 63) - 4096 - 1]):
+        for al in (16, 4096):
+            plans.append({"kind": "hist", "slots": 4, "os": "bad"[i % 3], "walk": True, "src": "unsatisfiable",
+                          "ops": [["m", 0, 40, al], ["m", 1, huge, al], ["r", 0, huge], ["c", 2, huge, 16], ["m", 3, 233, 16],
+                                  ["r", 0, 70000], ["f", 3], ["r", 0, huge - 7], ["f", 0]]})
+    # tree-heavy random histories: many distinct large sizes in the same tree bins
+    for i in range(30 if quick else 300):
+        tree = sorted(rng.randrange(256, 40000) for _ in range(40))
+        rand_plans.append({"kind": "rand", "seed": rng.randrange(1, 1 << 40), "n": n_ops, "slots": 64, "max": 40000,
+                           "max_live": 24 << 20, "rand_place": True, "os": rng.choice("bad"), "rand_refuse": rng.choice([0, 30]),
+                           "classes": tree, "aligns": [16, 32, 64], "src": "random-tree-heavy"})
     if not quick:
         # every refusal position in 200 fixed seed histories
         for i in range(200):
